@@ -97,6 +97,22 @@ CLAIMS = {
         "Line-level atomicity; payloads below one pipe buffer; os.read / queue.get / time.sleep / locks of the modules under test are cooperative shims (pipes and threads are real); external processes are not single-stepped (see DESIGN §4).",
         "DESIGN.md §3 C06",
     ),
+    "C05": (
+        "exploration",
+        "bounded-exhaustive enumeration of and/or/pipe chain programs x exit-code assignments x raise-flag settings executed by the real Execer against a reference interpreter of docs/error_handling.rst",
+        "gramx",
+        "Every and/or chain tree with <= 3 (thorough 4) operands x operand form / decorator / text kind / pipeline deviations (k <= 1, thorough 2) x all reachable exit-code assignments x the four settings of the two raise flags x follower statement x statement kind is executed by the real Execer with recording aliases, plus a real-child `-c`/script subset for the exit status, and compared with a reference interpreter written from docs/error_handling.rst on the ordered run log, exception class/returncode and exit status.",
+        "Aliases returning an int stand in for commands; && / || have Python and/or precedence (tutorial); combinations on which the docs are silent (truthiness of a non-final $(), un-inspected !(), CMD flag vs !() / early pipeline stages, raising `if` conditions) are accepted either way.",
+        "DESIGN.md §3 C05",
+    ),
+    "C17": (
+        "exploration",
+        "bounded-exhaustive enumeration of Python+xonsh forms x layouts (deviation bound) through the real formatter, compared via xonsh's own three-phase parse, idempotence and comment sequence",
+        "gramx",
+        "Every program of a ~240-form Python+xonsh grammar in up to 6 contexts under every layout with <= 1 (core forms <= 2) deviations from canonical over a 40+-symbol layout alphabet, plus all proper prefixes, is formatted with the real format_source / CLI; output and input must parse (Execer.parse) to the same location-free tree with strings, macro text and argv byte-exact, comments preserved in sequence, format(format(s)) == format(s), and rejected input must never be rewritten.",
+        "Grammar variables are bound and command words unbound in the parse context; un-tokenisable means tokenize(tolerant=False) raises; small-scope hypothesis on layout deviations; root-cause keys come from repair transforms and the first tree-changing gap edit.",
+        "DESIGN.md §3 C17",
+    ),
 }
 
 NOT_YET = "check not built yet (work in progress in this round; see DESIGN.md §3 for the planned exploration)"
@@ -105,7 +121,7 @@ ENGINES = [
     {"name": "crashx", "path": "xv/crashx.py", "serves_properties": ["C13"], "kind_free_text": "records the file-operation log of a write history through shims bound into the module under test, then enumerates every crash point, torn write and failing call in forked children; strace syscall injection for libsqlite3"},
     {"name": "pysched", "path": "xv/pysched.py", "serves_properties": ["C06", "C11", "C12"], "kind_free_text": "stateless preemption-bounded exploration of real CPython threads: baton scheduler, line-event scheduling points in named functions, cooperative Lock/Condition/sleep/join shims, DFS over choice prefixes with replay-divergence detection"},
     {"name": "seqx", "path": "xv/seqx.py", "serves_properties": ["C10", "C11", "C12", "C16", "C20"], "kind_free_text": "explicit-state breadth-first search whose transitions call the real entry points on a freshly replayed implementation; canonical state hashing; lock-step reference"},
-    {"name": "gramx", "path": "xv/", "serves_properties": ["C04", "C07", "C14", "C15"], "kind_free_text": "bounded-exhaustive enumeration of structured inputs run through the real implementation, compared with a reference"},
+    {"name": "gramx", "path": "xv/", "serves_properties": ["C04", "C05", "C07", "C14", "C15", "C17"], "kind_free_text": "bounded-exhaustive enumeration of structured inputs run through the real implementation, compared with a reference"},
 ]
 
 
